@@ -870,3 +870,27 @@ class sql_render_db:
 
     def ensures_pieces(cls, db, result):
         return result == sql_database(db)
+
+
+# ------------------------------------------------------------------------------------------ C16: x.sql
+from contracts.classes import render_via, owner_database
+
+
+@contract('pydbml._classes.base:SQLObject.sql')
+class element_sql:
+    """x.sql is R.render(x) with R the sql_renderer of the database x is attached to — whatever that database
+    contains, an empty one included (for a column: its table's database) — and the default renderer class when x is
+    attached to none (C16)."""
+    properties = ('C16',)
+    params = {'self': 'Union[Table,Column,Enum,Reference,Index,EnumItem,Note,Expression]'}
+    pure = True
+    ret = 'str'
+    # the element renderer's refusals of a degenerate element (C17) propagate
+    allowed = ('AttributeMissingError', 'TableNotFoundError', 'DBMLError', 'UnknownDatabaseError', 'IndexError')
+
+    def requires_renderable_when_detached(self):
+        return owner_database(self) is not None or renderable(self)
+
+    def ensures_configured_renderer(self, result):
+        return result == (render_via(owner_database(self).sql_renderer, self) if owner_database(self) is not None
+                          else rendered_sql(self))
